@@ -21,7 +21,7 @@ import time
 from . import valcodec
 from .net import Net, BUS
 
-STREAMS = ['net-exhaustive', 'net-random', 'net-revisions', 'net-deadlines', 'net-spy', 'net-corpus', 'bytes-net']
+STREAMS = ['net-exhaustive', 'net-random', 'net-revisions', 'net-deadlines', 'net-spy', 'net-corpus', 'bytes-net', 'net-sameproxy']
 THEOREMS = ['link_refinement', 'link_refinement_framing_laws', 'link_refinement_txdbus_framing',
             'call_stage_invariant', 'call_in_exactly_one_stage', 'queues_hold_only_issued_calls',
             'C11_end_to_end', 'quiescence_reachable', 'C11_completion_always_reachable',
@@ -548,6 +548,54 @@ def gen_revision_scenario(rng):
     plans = [[rng.choice(['value', 'value', 'defer-value', 'raise-named']) for _ in range(3)] for _ in exports]
     return {'n': n, 'exports': exports, 'calls': calls, 'plans': plans, 'vseed': rng.randrange(10**9),
             'family': 'revisions'}
+
+
+def gen_sameproxy_scenario(rng):
+    """ONE proxy object (declared, declared in reversed order, or introspected), a method name that two or three of its
+    interfaces share (different signatures and return types, a function of its own per interface), and a SEQUENCE of
+    3-6 calls on that proxy, each issued after the previous one: default calls (no `interface=`, or a falsy one) and
+    calls naming one of the interfaces, in any order.  Whatever was called before, a default call runs the method of
+    the FIRST interface in the proxy's order that has the name, an explicit one the named interface's."""
+    n = rng.choice([2, 2, 3])
+    pool = [x for x in SIG_POOL if x]
+    k_if = rng.choice([2, 2, 3])
+    sig_in = rng.sample(pool, k_if)
+    sig_out = rng.sample(pool, k_if)
+    ifaces = []
+    for k in range(k_if):
+        methods = [['shared', sig_in[k], sig_out[k], rng.random() < 0.3]]
+        if rng.random() < 0.6:
+            methods.append(['own%d' % k, rng.choice(SIG_POOL), rng.choice(SIG_POOL), False])
+        if rng.random() < 0.3:
+            methods.insert(0, ['other', rng.choice(SIG_POOL), rng.choice(SIG_POOL), False])
+        ifaces.append({'name': 'org.t.S%d' % k, 'methods': methods})
+    spec = {'client': rng.randrange(n), 'path': '/same', 'ifaces': ifaces}
+    if rng.random() < 0.3:
+        spec['layout'] = 'hier'
+        spec['depth'] = 2
+        spec['levels'] = sorted(rng.randrange(2) for _ in ifaces)
+        if len(set(spec['levels'])) == 1:
+            spec['levels'][-1] = 1
+    how = rng.choice(['explicit', 'explicit', 'introspect'])
+    order = 'rev' if (how == 'explicit' and rng.random() < 0.4) else 'decl'
+    listed = list(reversed(ifaces)) if order == 'rev' else ifaces
+    caller = rng.randrange(n)
+    calls = []
+    for k in range(rng.choice([3, 4, 5, 6])):
+        member = 'shared' if rng.random() < 0.8 else rng.choice([m[0] for i in ifaces for m in i['methods']])
+        having = [i for i in listed if any(m[0] == member for m in i['methods'])]
+        kw = rng.choice([None, None, ''] + [i['name'] for i in having] * 2)
+        sel = having[0] if not kw else [i for i in having if i['name'] == kw][0]
+        meth = [m for m in sel['methods'] if m[0] == member][0]
+        call = {'caller': caller, 'export': 0, 'iface': sel['name'], 'member': member, 'how': how, 'wrong': None,
+                'kw': kw, 'bad_args': False, 'order': order, 'replace': False,
+                'args': [valcodec.to_line(a) for a in gen_body(rng, meth[1])]}
+        if k > 0:
+            call.update(reuse=0, after_issued=k - 1)
+        calls.append(call)
+    plans = [[rng.choice(['value', 'value', 'value', 'defer-value', 'raise-named']) for _ in range(4)]]
+    return {'n': n, 'exports': [spec], 'calls': calls, 'plans': plans, 'vseed': rng.randrange(10**9),
+            'family': 'sameproxy'}
 
 
 def bytes_scenario(rng):
@@ -1458,6 +1506,8 @@ class Run:
         call['issue'] = result
         call['decl'] = decl
         expect.append(result)
+        for k2 in self.waiting_issue.pop(k, []):
+            self.actions.append(('call', k2))       # the next call of a sequence on one proxy
         if nested is None:
             del net.log[:]
             self.lines += lines
@@ -1532,7 +1582,11 @@ class Run:
         self.intro_serials = {}
         self.actions = []
         self.waiting = {}
+        self.waiting_issue = {}
         for k, c in enumerate(self.calls):
+            if c.get('after_issued') is not None:
+                self.waiting_issue.setdefault(c['after_issued'], []).append(k)     # enabled once that call was ISSUED
+                continue
             if c.get('after') is not None:
                 self.waiting.setdefault(c['after'], []).append(k)      # enabled once that proxy exists
                 continue
@@ -2052,6 +2106,12 @@ def run(ctx):
         scn = gen_deadline_scenario(rng) if k % 3 else gen_scenario(rng)
         batch.append(random_run(scn, (ctx.seed, 'dl', k, rng.random()), advance=2))
     report(ctx, 'net-deadlines', batch)
+    # ---- sequences of calls on ONE proxy, default and `interface=` calls of a method name several interfaces share
+    batch = []
+    for k in range(ctx.scale(quick=50, thorough=500)):
+        scn = gen_sameproxy_scenario(rng)
+        batch.append(random_run(scn, (ctx.seed, 'same', k, rng.random())))
+    report(ctx, 'net-sameproxy', batch)
     # ---- the BYTE-level model (`brun`: bstep, flush, busHandle, cliHandleAll, BNet.init, drain, pick) against the real
     # network: every delivery is one `readBus` / `readClient` with the real number of bytes, the codec is the table of
     # the bytes the real peers wrote; a third of the runs end by the canonical draining schedule
